@@ -25,6 +25,8 @@ import Distill.Model.Terms
 import Distill.Model.IEReader
 import Distill.Model.ImageExtract
 import Distill.Model.OpenGraph
+import Distill.Model.SchemaOrg
+import Distill.Model.MarkupPage
 namespace Distill.Slices
 open Distill Distill.Proto
 
@@ -579,6 +581,28 @@ def opengraphSlice : P String := do
     let art := match s.article with | some a => artStr a | none => "nil"
     pure s!"usable {hex s.title} {hex s.type} {hex s.url} {hex s.description} {hex s.publisher} {hex s.author} {art} {s.images.map imgStr}"
 
+/-- `schemaorg tree nTbl (value lower)*` → the answers of the schema.org accessor -/
+def schemaorgSlice : P String := do
+  let t ← node
+  let m ← nat
+  let tbl ← many m (do let v ← str; let a ← str; pure (v, a))
+  let lower : String → String := fun v => match tbl.find? (fun e => e.1 == v) with | some e => e.2 | none => v
+  let s := SO.source lower t
+  let art := match s.article with | some a => artStr a | none => "nil"
+  pure s!"{hex s.title} {hex s.type} {hex s.url} {hex s.description} {hex s.publisher} {hex s.copyright} {hex s.author} {art} {s.images.map imgStr}"
+
+/-- `markuppage tree atoms nTbl (value lower upper)* og profile article` → `Result.MarkupInfo` -/
+def markuppageSlice : P String := do
+  let t ← node
+  let A ← atomsP
+  let m ← nat
+  let tbl ← many m (do let v ← str; let a ← str; let b ← str; pure (v, a, b))
+  let lower : String → String := fun v => match tbl.find? (fun e => e.1 == v) with | some e => e.2.1 | none => v
+  let upper : String → String := fun v => match tbl.find? (fun e => e.1 == v) with | some e => e.2.2 | none => v
+  let og ← str; let pr ← str; let ar ← str
+  let i := pageMarkup { lower := lower, upper := upper, vis := A, prefixes := { og := og, profile := pr, article := ar } } t
+  pure s!"{hex i.title} {hex i.type} {hex i.url} {hex i.description} {hex i.publisher} {hex i.copyright} {hex i.author} {artStr i.article} {i.images.map imgStr}"
+
 def outElP : P OutEl := do
   let c ← bool; let h ← str; let t ← str
   pure { content := c, html := h.toList, text := t.toList }
@@ -601,6 +625,8 @@ def dispatch (slice : String) : Option (P String) :=
   | "iereader" => some iereaderSlice
   | "imageextract" => some imageextractSlice
   | "opengraph" => some opengraphSlice
+  | "schemaorg" => some schemaorgSlice
+  | "markuppage" => some markuppageSlice
   | "linknum" => some linknumSlice
   | "docfilters" => some docfilters
   | "tableclass" => some tableclass
